@@ -50,10 +50,21 @@ def N(items):
     return {'N': [[k, v] for k, v in items]}
 
 
-def canon(v):
-    """unordered canonical form: dict for mappings, ('L', is_default, atom) for leaves"""
+def has_sharing(v) -> bool:
+    return 'R' in v or ('N' in v and any(has_sharing(x) for _, x in v['N']))
+
+
+def canon(v, shared=None):
+    """unordered canonical form: dict for mappings, ('L', is_default, atom) for leaves; {"R": n} is expanded to the tree of the dict
+    object defined as {"N": ..., "id": n} (the VALUE of a document with shared sub-maps)"""
+    shared = {} if shared is None else shared
+    if 'R' in v:
+        return shared[v['R']]
     if 'N' in v:
-        return {k: canon(x) for k, x in v['N']}
+        out = {k: canon(x, shared) for k, x in v['N']}
+        if v.get('id'):
+            shared[v['id']] = out
+        return out
     d, a = v['L']
     if isinstance(a, dict):
         a = ('O', a['O']) if 'O' in a else ('Li', a['Li'])
@@ -99,9 +110,23 @@ class Codec:
             self.back[self.opaque[r]] = r
         return 'o%d' % self.opaque[r]
 
-    def enc(self, v) -> str:
+    def enc_dag(self, v) -> str:
+        if 'R' in v:
+            return '^%d' % v['R']
         if 'N' in v:
-            return '{ ' + ''.join('%s %s ' % (self.s(k), self.enc(x)) for k, x in v['N']) + '}'
+            return ('{#%d ' % v['id'] if v.get('id') else '{ ') + ''.join('%s %s ' % (self.s(k), self.enc_dag(x)) for k, x in v['N']) + '}'
+        d, a = v['L']
+        return ('d:' if d else 'e:') + self.atom(a)
+
+    def enc(self, v, shared=None) -> str:
+        shared = {} if shared is None else shared
+        if 'R' in v:
+            return shared[v['R']]
+        if 'N' in v:
+            t = '{ ' + ''.join('%s %s ' % (self.s(k), self.enc(x, shared)) for k, x in v['N']) + '}'
+            if v.get('id'):
+                shared[v['id']] = t
+            return t
         d, a = v['L']
         return ('d:' if d else 'e:') + self.atom(a)
 
@@ -202,12 +227,38 @@ def gen_doc(rng, depth: int, p_default: float):
     return N((k, gen_val(rng, depth, p_default)) for k in rng.sample(KEYS[:5], n))
 
 
+def share_siblings(rng, v, counter):
+    """makes, here and there, two keys of one mapping hold the SAME sub-map object (what a YAML anchor/alias or a dict stored under two
+    keys gives)"""
+    if 'N' not in v:
+        return v
+    items = [[k, share_siblings(rng, x, counter)] for k, x in v['N']]
+    maps = [i for i, (_, x) in enumerate(items) if 'N' in x and not x.get('id')]
+    if maps and rng.random() < 0.5:
+        i = rng.choice(maps)
+        counter[0] += 1
+        items[i][1] = dict(items[i][1], id=counter[0])
+        free = [k for k in KEYS[:5] if k not in [kk for kk, _ in items]]
+        later = [j for j in range(i + 1, len(items))]
+        if free and (not later or rng.random() < 0.6):
+            items.append([rng.choice(free), {'R': counter[0]}])
+        elif later:
+            items[rng.choice(later)][1] = {'R': counter[0]}
+        else:
+            items[i][1] = {k2: v2 for k2, v2 in items[i][1].items() if k2 != 'id'}
+    return {'N': items}
+
+
+ALIASMAP_WITNESS = {'kind': 'merge', 'base': N([('e', L('.h'))]),
+                    'srcs': [{'N': [['e', {'N': [['a', {'N': [['k', L(1)]], 'id': 1}], ['b', {'R': 1}]]}]]},
+                             N([('e', N([('a', N([('k', L(2))]))]))])]}
+
 ALIAS_WITNESS = {'kind': 'merge', 'base': N([('a', L(1))]),
                  'srcs': [N([('a', N([('x', N([('y', L(1))]))]))]), N([('a', N([('x', N([('y', L(2))]))]))])]}
 
 
 def gen_merge_cases(rng, count: int):
-    cases = [ALIAS_WITNESS,
+    cases = [ALIAS_WITNESS, ALIASMAP_WITNESS,
              {'kind': 'merge', 'base': N([('a', L(1, True)), ('b', L(2))]),
               'srcs': [N([('a', L(3)), ('b', L(4, True))]), N([('a', L(5, True)), ('b', L(6))])]},
              {'kind': 'merge', 'base': N([('a', N([('one', L(1)), ('two', L(2, True))])), ('b', L('not a default')), ('c', L('one', True))]),
@@ -217,7 +268,11 @@ def gen_merge_cases(rng, count: int):
              {'kind': 'merge', 'base': N([('a', N([]))]), 'srcs': [N([('a', L(1, True))]), N([('a', N([]))])]}]
     while len(cases) < count:
         pd = rng.choice([0.0, 0.2, 0.4, 0.6])
-        cases.append({'kind': 'merge', 'base': gen_doc(rng, 3, pd), 'srcs': [gen_doc(rng, 3, pd) for _ in range(rng.randrange(0, 5))]})
+        c = {'kind': 'merge', 'base': gen_doc(rng, 3, pd), 'srcs': [gen_doc(rng, 3, pd) for _ in range(rng.randrange(0, 5))]}
+        if rng.random() < 0.25:      # documents with shared sub-maps
+            c['srcs'] = [share_siblings(rng, x, [0]) for x in c['srcs']]
+            # (the target is never shared inside: a configuration is always built by deep_update itself, from {} or from a rebuilt copy)
+        cases.append(c)
     return cases
 
 
@@ -421,7 +476,11 @@ def gen_cli_cases(rng, count: int, groups: typing.Optional[dict] = None):
             same = same[1] if isinstance(same, tuple) else same
             val = same if rng.random() < 0.6 else ('zz_other' if isinstance(same, str) else not same)
             files.insert(rng.randrange(len(files) + 1), N([('nunavut.lang.cpp', N([('options', N([(k, L(val))]))]))]))
-        cases.append({'kind': 'cli', 'argv': argv, 'files': files, 'lang': lang})
+        c = {'kind': 'cli', 'argv': argv, 'files': files, 'lang': lang}
+        if len(files) >= 2 and rng.random() < 0.3:      # the files spread over two --configuration options
+            k = rng.randrange(1, len(files))
+            c['file_groups'] = [k, len(files) - k]
+        cases.append(c)
     return cases
 
 
@@ -500,7 +559,10 @@ def model_lines(codec: Codec, builtin_v, reqs) -> typing.List[str]:
     lines = []
     for r in reqs:
         if r['kind'] == 'merge':
-            lines.append('M %s %s' % (codec.enc(r['base']), ' '.join(codec.enc(s) for s in r['srcs'])))
+            if any(has_sharing(x) for x in [r['base']] + r['srcs']):
+                lines.append('D %s %s' % (codec.enc_dag(r['base']), ' '.join(codec.enc_dag(s) for s in r['srcs'])))
+            else:
+                lines.append('M %s %s' % (codec.enc(r['base']), ' '.join(codec.enc(s) for s in r['srcs'])))
         elif r['kind'] == 'proc':
             parts = []
             for o in r['ops']:
@@ -523,7 +585,8 @@ def model_lines(codec: Codec, builtin_v, reqs) -> typing.List[str]:
             lines.append('P %s %s' % (b, ' '.join(parts)))
         else:
             args = ' '.join('%s %s' % (codec.s(k), codec.atom(v)) for k, v in r['args'].items() if v is not None)
-            lines.append('C %s %d %s %s' % (b, len(r['files']), ' '.join(codec.enc(f) for f in r['files']), args))
+            fe = r.get('files_eff', r['files'])
+            lines.append('C %s %d %s %s' % (b, len(fe), ' '.join(codec.enc(f) for f in fe), args))
     return lines
 
 
@@ -668,6 +731,28 @@ def canon_obs(ob):
             'template': ob.get('template'), 'sections': canon(ob['sections']), 'language': ob.get('language')}
 
 
+def unmark(x):
+    return ('L', False, x[2]) if isinstance(x, tuple) and len(x) == 3 and x[0] == 'L' else x
+
+
+def wrapper_defects(ob):
+    """oracle: what a context reports are plain values, never nunavut.DefaultValue marker objects -- get_options() of every
+    language, `options`/`ln.<lang>.options` in a template, --list-configuration"""
+    bad = []
+    for n, v in list(ob.get('all_options', {}).items()) + [('target', ob['options'])]:
+        w = sorted(k for k, x in canon(v).items() if isinstance(x, tuple) and x[1])
+        if w:
+            bad.append(('get_options() of %s reports DefaultValue marker objects' % n, [], w))
+    for n, kv in (ob.get('template') or {}).items():
+        if isinstance(kv, dict):
+            w = sorted(k for k, t in kv.items() if isinstance(t, str) and t.startswith('DefaultValue('))
+            if w:
+                bad.append(('a template prints `DefaultValue(...)` for options of %s' % n, [], w))
+    if ob.get('listed_has_wrapper'):
+        bad.append(('--list-configuration prints DefaultValue objects (python/object tags, not loadable with yaml.safe_load)', [], True))
+    return bad[:1]
+
+
 def strip_obs(ob):
     return {k: ob.get(k) for k in ('all_options', 'options', 'template', 'sections', 'language')}
 
@@ -769,13 +854,9 @@ def main(chk: core.Check, replay: typing.Optional[str] = None) -> int:
             # the values of given options are taken as parsed (type= conversions); everything else comes from the regenerated defaults
             r['args'] = {d: v for d, v in o.get('args', {}).items() if d in given_dests(r['argv'])}
     ok_model, exe, log = core.build_extracted('c13', 'ExtractC13.v', 'c13_driver.ml')
-    codec = Codec()
-    model = None
-    if ok_model:
-        model = run_model(exe, codec, model_lines(codec, builtin_v, all_reqs))
-    else:
-        broken.append('model does not build/extract: ' + log[-300:])
 
+    live: typing.Dict[str, bool] = {}
+    probe_violations: typing.List[str] = []
     # 3. probe the known finding F-CFG-REUSE on the implementation
     reuse_live = False
     probe = run_impl([{'kind': 'proc', 'ops': REUSE_WITNESS_OPS}])[0]
@@ -788,6 +869,29 @@ def main(chk: core.Check, replay: typing.Optional[str] = None) -> int:
     if reuse_live and chk.is_known('F-CFG-REUSE'):
         chk.report_known('F-CFG-REUSE')
 
+    # 3b. probe the pending findings (design_notes/C13_*_fix.patch) on the implementation
+    g1 = N([('nunavut.lang.c', N([('options', N([('target_endianness', L('big'))]))]))])
+    g2 = N([('nunavut.lang.c', N([('options', N([('enable_serialization_asserts', L(True))]))]))])
+    pr = run_impl([ALIASMAP_WITNESS, {'kind': 'cli', 'argv': ['--target-language', 'py', '--experimental-languages'], 'files': []},
+                   {'kind': 'emptydoc'},
+                   {'kind': 'cli', 'argv': ['--target-language', 'c', '--experimental-languages'], 'files': [g1, g2], 'file_groups': [1, 1]}])
+    probes = {}
+    try:
+        probes['F-CFG-ALIASMAP'] = canon(pr[0]['result'])['e']['b']['k'] == ('L', False, 2)
+        probes['F-CFG-WRAPPER'] = bool(pr[1].get('listed_has_wrapper')) or any(isinstance(x, tuple) and x[1] for x in canon(pr[1]['options']).values())
+        probes['F-CFG-EMPTYDOC'] = str(pr[2].get('empty', '')).startswith('raised') or str(pr[2].get('comment', '')).startswith('raised')
+        probes['F-CFG-REPEATC'] = canon(pr[3]['options']).get('target_endianness') != ('L', False, 'big')
+    except Exception as ex:  # noqa
+        chk.notes.append('probe failure: %r' % (ex,))
+    for fid, is_live in probes.items():
+        if is_live and chk.is_known(fid):
+            chk.report_known(fid)
+            live[fid] = True
+        elif is_live:
+            probe_violations.append(fid)
+    if 'changed' in (pr[2].get('empty'), pr[2].get('comment')):
+        probe_violations.append('an empty configuration file changes the configuration')
+
     # documented shorthand groups vs applied groups (values): known documentation defect F-DOC-STDGROUP
     doc_mis = doc_group_mismatches()
     doc_other = None
@@ -798,6 +902,19 @@ def main(chk: core.Check, replay: typing.Optional[str] = None) -> int:
             doc_other = [m for m in doc_mis if m != known_pair]
         else:
             doc_other = doc_mis
+
+    # the files a CLI case effectively merges: all of them, in command-line order -- unless repeated --configuration options are still
+    # replaced by the last one (F-CFG-REPEATC live), which the model (fed by the check) then follows
+    for r in all_reqs:
+        if r['kind'] == 'cli':
+            groups = r.get('file_groups') or [len(r['files'])]
+            r['files_eff'] = r['files'][len(r['files']) - groups[-1]:] if (live.get('F-CFG-REPEATC') and len(groups) > 1) else r['files']
+    codec = Codec()
+    model = None
+    if ok_model:
+        model = run_model(exe, codec, model_lines(codec, builtin_v, all_reqs))
+    else:
+        broken.append('model does not build/extract: ' + log[-300:])
 
     stats: typing.Dict[str, int] = {'merge_cases': len(merge_cases), 'proc_cases': len(proc_cases), 'cli_cases': len(cli_cases),
                                     'permuted_interleavings': len(perm_cases), 'model_vs_impl_compared': 0, 'oracle_vs_impl_compared': 0,
@@ -827,8 +944,13 @@ def main(chk: core.Check, replay: typing.Optional[str] = None) -> int:
                 distinct.add(json.dumps([r['base'], r['srcs']], sort_keys=True))
             stats['oracle_vs_impl_compared'] += 1
             got = canon(o['result'])
+            shared_case = any(has_sharing(x) for x in [r['base']] + r['srcs'])
+            stats['merge_cases_with_shared_submaps'] = stats.get('merge_cases_with_shared_submaps', 0) + shared_case
             if got != exp:
-                bad_oracle.append((r, 'merged value differs from precedence/deep-union oracle', exp, got))
+                if shared_case and live.get('F-CFG-ALIASMAP') and (m is None or m.get('result') == got):
+                    stats['known_finding_instances'] += 1
+                else:
+                    bad_oracle.append((r, 'merged value differs from precedence/deep-union oracle', exp, got))
             after = [canon(s) for s in o['srcs_after']]
             if after != [canon(s) for s in r['srcs']]:
                 bad_oracle.append((r, 'a source document was modified by the merge', [canon(s) for s in r['srcs']], after))
@@ -869,6 +991,12 @@ def main(chk: core.Check, replay: typing.Optional[str] = None) -> int:
             for what, exp, got in explicit_overrides_win(r['ops'], o['creates']):
                 bad_oracle.append((r, what, exp, got))
             ok_obs = [c for c in o['creates'] if c['options'] != 'ERR']
+            for ob in ok_obs:
+                for what, exp, got in wrapper_defects(ob):
+                    if live.get('F-CFG-WRAPPER'):
+                        stats['known_finding_instances'] += 1
+                    else:
+                        bad_oracle.append((r, what, exp, got))
             for ci, ob in enumerate(ok_obs):
                 for what, exp, got in observation_defects(ob):
                     bad_oracle.append((r, what, exp, got))
@@ -915,10 +1043,30 @@ def main(chk: core.Check, replay: typing.Optional[str] = None) -> int:
                     bad_oracle.append((r, what, exp, got))
                 # oracle: file values for the three flags survive unless the flag is given; given flags are True
                 exp_sec = builtin_c
-                for f in r['files']:
+                for f in r['files_eff']:
                     exp_sec = o_merge(exp_sec, canon(f))
+                if len(r['files_eff']) != len(r['files']):      # only when F-CFG-REPEATC is live and known
+                    stats['known_finding_instances'] += 1
                 file_opts = exp_sec.get('nunavut.lang.' + r['lang'], {}).get('options', {})
                 got_opts = canon(o['options'])
+                for what, exp, got in wrapper_defects(o):
+                    if live.get('F-CFG-WRAPPER'):
+                        stats['known_finding_instances'] += 1
+                    else:
+                        bad_oracle.append((r, what, exp, got))
+                # observation channel `nnvg --list-configuration`: prints what the context holds; its options are get_options()
+                if o.get('listed') is None:
+                    bad_oracle.append((r, '--list-configuration failed', None, o.get('listed_error')))
+                else:
+                    stats['list_configuration_outputs_compared'] = stats.get('list_configuration_outputs_compared', 0) + 1
+                    listed = canon(o['listed'])
+                    if listed != canon(o['sections']):
+                        bad_oracle.append((r, '--list-configuration prints something else than the context holds', canon(o['sections']), listed))
+                    lo = listed.get('nunavut.lang.' + r['lang'], {}).get('options')
+                    if isinstance(lo, dict) and lo != got_opts:
+                        bad_oracle.append((r, '--list-configuration options differ from get_options() of the target language', got_opts, lo))
+                    if o.get('listed_target') != "target_language: '%s'" % r['lang']:
+                        bad_oracle.append((r, '--list-configuration names another target language', r['lang'], o.get('listed_target')))
                 stats['yaml_documents_deep_compared'] = stats.get('yaml_documents_deep_compared', 0) + o.get('yaml_docs', {}).get('checked', 0)
                 if o.get('yaml_docs', {}).get('modified'):
                     bad_oracle.append((r, 'a yaml-loaded source document was modified by the CLI context creation', [], o['yaml_docs']['modified']))
@@ -935,7 +1083,7 @@ def main(chk: core.Check, replay: typing.Optional[str] = None) -> int:
                     if r['lang'] == 'py' and f == 'enable_serialization_asserts':
                         continue
                     want = ('L', False, ('B', True)) if given else file_opts.get(f, ('L', True, ('B', False)))
-                    if got_opts.get(f) != want:
+                    if unmark(got_opts.get(f)) != unmark(want):      # (whether a DefaultValue marker leaks is the business of wrapper_defects)
                         bad_oracle.append((r, 'CLI flag %s: effective value is not (flag given ? True : file value)' % f, want, got_opts.get(f)))
                 # oracle: an option given explicitly on the command line beats every file
                 if '--target-endianness' in r['argv']:
@@ -964,6 +1112,9 @@ def main(chk: core.Check, replay: typing.Optional[str] = None) -> int:
                 elif oopt != 'ERR' and mc.get('all_options') != non_target_options(o):
                     bad_model.append((r, 'Config.observe_ctx vs get_options() of every non-target language (CLI context)',
                                       mc.get('all_options'), non_target_options(o)))
+                elif o.get('listed') is not None and mc['sections'] != canon(o['listed']):
+                    bad_model.append((r, 'Config.bcreate_st (sections the context holds) vs the output of --list-configuration', mc['sections'],
+                                      canon(o['listed'])))
                 elif 'sections' in o and mc['sections'] != canon(o['sections']):
                     bad_model.append((r, 'translated cli_ops + Config.bcreate_st vs _create_language_context: sections', mc['sections'],
                                       canon(o['sections'])))
@@ -1056,6 +1207,9 @@ def main(chk: core.Check, replay: typing.Optional[str] = None) -> int:
     def strip(r):
         return {k: v for k, v in r.items() if k not in ('perm_of',)}
 
+    for pv in probe_violations:
+        bad_oracle.append(({'kind': 'probe', 'finding': pv}, 'a witness of a configuration defect reproduces but is not a listed known finding: %s' % pv,
+                           None, pv))
     if doc_other:
         bad_oracle.append(({'kind': 'docs', 'mismatches': doc_other},
                            'docs/languages.rst documents another option group for a -std shorthand than properties.yaml applies', [], doc_other))
